@@ -11,6 +11,9 @@ local env = {}
 local loader_cache = {}
 local loaddata_cache = {}
 local _orig_package = package
+-- Modules loaded by the sandboxed require().  This is deliberately not the
+-- host package.loaded, which also holds io, os, package, _G, python, ...
+local sandbox_loaded = {}
 
 -- https://github.com/wikimedia/mediawiki-extensions-Scribunto/blob/d35ca1f8d5fd23f1a9915e497cc00cac238f28c4/includes/Engines/LuaCommon/lualib/mwInit.lua#L38-L71
 --- Do a "deep copy" of a table or other value.
@@ -93,8 +96,8 @@ end
 -- Tries to look up a module loaded by require() from the cache.  This is
 -- also called from _lua_invoke().
 function _cached_mod(modname)
-    if _orig_package.loaded[modname] then
-        return _orig_package.loaded[modname]
+    if sandbox_loaded[modname] then
+        return sandbox_loaded[modname]
     end
     return nil
 end
@@ -102,7 +105,7 @@ end
 -- Saves module loaded by require() into a cache.  This is also called
 -- from _lua_invoke().
 function _save_mod(modname, mod)
-    _orig_package.loaded[modname] = mod
+    sandbox_loaded[modname] = mod
 end
 
 -- Re-implements require()
@@ -391,9 +394,9 @@ local function _lua_reset_env()
     }
 
     -- Cause most packages to be reloaded
-    for k, v in pairs(package.loaded) do
+    for k, v in pairs(sandbox_loaded) do
         if retained_modules[k] ~= true then
-            package.loaded[k] = nil
+            sandbox_loaded[k] = nil
         end
     end
 
